@@ -11,10 +11,10 @@ CHECKS = {
     "C08": ("exploration", "oracle monitor: inspect.signature.bind vs transpiler IR fields over all call shapes", "binding",
             "every calling convention Python accepts (all positional/keyword splits, keyword permutations, omitted defaults) is run through the parser and compared with Signature.bind; exhaustive over shapes in the thorough tier",
             "field<->parameter table mirrors transpile/ast.py; sentinel literal values only"),
-    "C10": ("exploration", "output-digest equality monitor across hash seeds, call histories and thread interleavings", "determinism",
+    "C10": ("exploration", "output-digest equality monitor across hash seeds, call histories, thread interleavings and a one-script-per-fresh-interpreter reference; module-state fingerprint around every call", "determinism",
             "sha256 of emitted text compared across fresh processes with different PYTHONHASHSEED, shuffled in-process histories and 8 racing threads; module-level state fingerprinted around each call",
             "thread schedules are GIL switch points; corpus generated from the seed"),
-    "C12": ("fault_enumeration", "ordered effect-log monitor with fault injection at every step of target()", "target-faults",
+    "C12": ("fault_enumeration", "ordered effect-log monitor with fault injection at every step of target(), same-path and repeat-call histories, device-derived library oracle", "target-faults",
             "product of pair validity x script kind x upload flag x fault point, each run in a child process with recording fakes; the effect log is checked against the ordered-effects specification",
             "subprocess.run / mkdtemp / Path.write_text / Path.mkdir are the effect channels; no real pio is reachable (PATH emptied)"),
     "C13": ("exploration", "set-membership oracle over the registry matrix + configparser read-back + audit hook", "registry",
@@ -50,7 +50,7 @@ CHECKS = {
     "C06": ("exploration", "compiler-as-oracle monitor (g++ AVR-like front end, no C++ std headers) + structure monitor + string-escape differential", "differential",
             "every accepted script of three generators is compiled; a sample is linked against the mock libraries; string-literal fuzz is run and compared with CPython",
             "g++ -std=gnu++11 -fpermissive -nostdinc++ approximates avr-gcc; exceptions left enabled"),
-    "C09": ("exploration", "ASan+UBSan (explore then gate runs) + per-pass live-heap monitor vs CPython live-data measure", "differential",
+    "C09": ("exploration", "ASan+UBSan (explore then gate runs) + valgrind memcheck sample + per-pass live-heap monitor vs CPython live-data measure", "differential",
             "list/str-heavy programs run for 6 passes under the sanitizers; heap bytes after each pass must not grow while Python's live data is constant",
             "red-zone sanitizers: 'no report on these executions', not memory safety; __sanitizer_get_current_allocated_bytes is the heap ledger"),
     "C15": ("exploration", "trace monitors with scripted digitalRead/analogRead/pulseIn tapes and a virtual clock + host Button replay", "differential",
